@@ -271,6 +271,21 @@ func Generate(r *rand.Rand, k Knobs) *Scenario {
 			s.Hints = append(s.Hints, Hint{Op: "ImportName", Path: s.LocalPath, Name: "selfname"})
 		}
 	}
+	// degenerate hints: an empty name or alias is tolerated and means "no hint" (it also cancels an earlier hint for
+	// the same path)
+	if len(s.Paths) > 0 && r.Intn(10) == 0 {
+		pi := s.Paths[r.Intn(len(s.Paths))]
+		if pi.Path != "C" {
+			switch r.Intn(3) {
+			case 0:
+				s.Hints = append(s.Hints, Hint{Op: "ImportName", Path: pi.Path, Name: ""})
+			case 1:
+				s.Hints = append(s.Hints, Hint{Op: "ImportAlias", Path: pi.Path, Name: ""})
+			default:
+				s.Hints = append(s.Hints, Hint{Op: "ImportNames", Names: map[string]string{pi.Path: "", "unused.empty/hint": ""}})
+			}
+		}
+	}
 	// a hint may be overridden by a later one for the same path (last call wins)
 	if len(s.Hints) > 0 && r.Intn(6) == 0 {
 		h := s.Hints[r.Intn(len(s.Hints))]
@@ -373,6 +388,9 @@ func (s *Scenario) EffectiveHint(path string) (h Hint, ok bool) {
 				h, ok = Hint{Op: "ImportName", Path: path, Name: n}, true
 			}
 		}
+	}
+	if ok && h.Name == "" {
+		return Hint{}, false // an empty name is no hint at all (and it replaced whatever was hinted before)
 	}
 	return
 }
